@@ -72,5 +72,10 @@ int main() {
               << (r.inhomogeneous_term().lower_is_open() ? "(" : "[") << r.inhomogeneous_term().lower() << ", " << r.inhomogeneous_term().upper()
               << (r.inhomogeneous_term().upper_is_open() ? ")" : "]") << " contains the double 0.1? " << r.inhomogeneous_term().contains(0.1) << "\n";
   }
+  { // F10: relative error of the IBM_SINGLE (base 16) analysed format
+    typedef Interval<double, Floating_Point_Box_Interval_Info> FPI;
+    Linear_Form<FPI> f(FPI(1.0)), r; f.relative_error(IBM_SINGLE, r);
+    std::cout << "F10  relative_error(IBM_SINGLE) of the constant form 1: upper bound = " << r.inhomogeneous_term().upper() << "  (one ulp of a 6-hex-digit value is up to 16^-5 = 9.5e-07 of it)\n";
+  }
   return 0;
 }
